@@ -56,4 +56,10 @@ TrueExtrema(pts) == LET st == Extent(pts) IN
   \A a \in Ax(pts[1]) : /\ \A k \in DOMAIN pts : st.mn[a] <= pts[k][a] /\ pts[k][a] <= st.mx[a]
                         /\ \E k \in DOMAIN pts : st.mn[a] = pts[k][a]
                         /\ \E k \in DOMAIN pts : st.mx[a] = pts[k][a]
+(* Generic oriented boxes (real-valued rotations, extents, centres): residuals measured on the real box, in units of one rounding *)
+(* of the compared quantity: res = << half-extent of the derived axis-aligned box against the reach of the corners along each    *)
+(* axis (enclosing and tight at once), its centre against the box centre >>; agree: membership equals the box-frame test on      *)
+(* every point that is not within rounding of a face.                                                                            *)
+GenericBound == 16
+GenericOK(t) == t.agree /\ \A i \in 1..2 : t.res[i] <= GenericBound
 =============================================================================
